@@ -15,6 +15,9 @@ from cv import graphs  # noqa: E402
 from cv.core import VERIF, Check  # noqa: E402
 from cayleypy import CayleyGraph, MatrixGroups, PermutationGroups, create_graph, prepare_graph  # noqa: E402
 
+# theorems `regenerated constructor ∘ create = closed-form specification` (translator harness/extract/pylean.py)
+GEN_MODULES = {"C15g2": [], "C15g3": [], "C15g4": [], "C15g5": []}
+
 THEOREMS = [
     "Cv.C15.index_lists_sorted",
     "Cv.C15.index_lists_nodup",
@@ -609,6 +612,13 @@ def check_family(ck, fam, ctor, spec, args, orders_jobs):
 def main():
     ck = Check("C15")
     ck.lean_obligations("CvProps.C15", THEOREMS)
+    if not ck.replay:
+        from cv.pygen_corr import gen_tie  # noqa: E402
+
+        for mod, thms in GEN_MODULES.items():
+            if thms and os.path.exists(os.path.join(VERIF, "lean", "CvProps", mod + ".lean")):
+                ck.gen_obligations("CvProps." + mod, thms, "translated source")
+        gen_tie(ck, None, [], ("fam",))
     cap = 9 if not ck.thorough else 12
     only = None
     if ck.replay:
